@@ -21,7 +21,7 @@ MANIFEST = {
              'vs. skipped fields, non-finite sentinels vs. JSON) are listed in known_findings.json.'),
 }
 EXPLANATION = 'Attribute / format-table / write-set inventories that the round trip needs; each violation names the type.field or function.'
-RULES = ['C17-1.formats', 'C17-1.init', 'C17-2.bincode', 'C17-3.skip', 'C17-4.midrun', 'C17-5.nonfinite', 'C17-6.linkidx', 'C17-7.nestedinit']
+RULES = ['C17-1.formats', 'C17-1.init', 'C17-2.bincode', 'C17-3.skip', 'C17-4.midrun', 'C17-5.nonfinite', 'C17-6.linkidx', 'C17-7.nestedinit', 'C17-8.validators']
 ASSUMPTIONS = ['serde_yaml / serde_json / bincode behave as documented']
 
 STEP_ROOTS = ['LocomotiveSimulation::step', 'ConsistSimulation::step', 'SetSpeedTrainSim::step', 'SpeedLimitTrainSim::step',
@@ -33,6 +33,11 @@ def serde_attrs(f):
 
 
 def run(ctx):
+    # loading runs init() -> validate(): a validator that rejects what its sibling (the borrowed / owned / legacy form of the same
+    # data) accepts makes a saved object unreadable — shared with C16-6
+    from .common import RuleProxy
+    from . import C16
+    C16.siblings_shared(RuleProxy(ctx, {'C16-6.siblings': 'C17-8.validators'}))
     formats(ctx)
     init_paths(ctx)
     attrs(ctx)
